@@ -241,3 +241,84 @@ class EagerScatterNumber(Contract):
         if renaming:
             return [("injective_renaming_returns_the_constant", result is ctx.src and ctx.calls == [])]
         return [("everything_else_is_materialised_and_scattered", ctx.calls == [("op", ctx.subs, ("Tensor", ("array", 3.5), "real"), frozenset())] and result == ("tensor-scatter", ("Tensor", ("array", 3.5), "real")))]
+
+
+@register
+class AdjointSubs(_Adj):
+    """adjoint_subs(sum_op, prod_op, out_adj, arg, subs): the adjoint of arg under out = arg(subs) is the SCATTER of out_adj back
+    along the substitution: every key is first relabelled to a fresh name (so that it cannot collide with a free input of a
+    value or of out_adj that happens to be spelled the same), Scatter(sum_op, relabelled pairs, out_adj, R) is built with R =
+    exactly the inputs of out_adj and of the values that the relabelled arg does not have (they are summed: positions that
+    receive several contributions add up, positions that receive none hold the semiring zero), and the fresh names are
+    renamed back to the keys.  No shortcut: also a substitution made of Variables only goes through Scatter (two keys may be
+    sent to the same variable -- the diagonal -- and then everything off the diagonal must be zero).
+    structure bound: <= 2 pairs; values that are variables (distinct or repeated), index tensors, or share inputs with arg."""
+
+    qualname = "adjoint_subs"
+    total = True
+    mutants = (
+        ("inputs of the values are not summed", "        reduced_vars |= v.input_vars - relabeled_arg.input_vars\n", "        pass\n"),
+        ("keys not relabelled before scattering", "relabeled_subs = tuple((relabel[k], v) for k, v in subs)", "relabeled_subs = tuple((k, v) for k, v in subs)"),
+    )
+
+    def structures(self, tier):
+        vals = ["var:k", "var:m", "ten:k", "ten:kb", "ten:"]
+        for n in (1, 2):
+            for vs in itertools.product(vals, repeat=n):
+                for out in ("", "k", "kb", "z"):
+                    yield "values=%s,out_adj_inputs=%s" % (",".join(vs), out or "-"), (vs, out)
+
+    def build(self, p, st):
+        vs, out = st
+        keys = ["a", "b"][: len(vs)]
+        counter = [0]
+
+        class Interp:
+            @staticmethod
+            def gensym(k):
+                counter[0] += 1
+                return "%s__%d" % (k, counter[0])
+
+        class Arg(X):
+            def __call__(self_, **ren):
+                r = X("relabelled_arg", [ren.get(v.name, v.name) for v in self_.input_vars])
+                r.ren = dict(ren)
+                return r
+
+        arg = Arg("arg", ["a", "b", "c"])
+        values = [X("value_%s" % k, list(v.split(":")[1])) for k, v in zip(keys, vs)]
+        subs = tuple(zip(keys, values))
+        out_adj = X("out_adj", list(out))
+        made = []
+
+        class ScatterT:
+            def __init__(self_, op, s, src, rv):
+                self_.t = (op, tuple(s), src, frozenset(rv))
+                made.append(self_)
+
+            def __call__(self_, **ren):
+                return ("renamed-back", self_, tuple(sorted(ren.items())))
+
+        ns = dict(NS, interpreter=Interp, Scatter=ScatterT, tuple=tuple)
+        return Ctx(args=(SUM, PROD, out_adj, arg, subs), namespace=ns, arg=arg, subs=subs, out_adj=out_adj, made=made, keys=keys, st=st)
+
+    def ensures(self, ctx, result):
+        vs, out = ctx.st
+        if len(ctx.made) != 1:
+            return [("one_scatter", False)]
+        sc = ctx.made[0]
+        op, pairs, src, rv = sc.t
+        fresh = [k for k, v in pairs]
+        fresh_ok = len(set(fresh)) == len(fresh) and all(f not in ("a", "b", "c", "k", "m", "z") for f in fresh) and [v for k, v in pairs] == [v for k, v in ctx.subs]
+        arg_names = ({"a", "b", "c"} - set(ctx.keys)) | set(fresh)
+        exp_rv = set(out)
+        for k, v in ctx.subs:
+            exp_rv |= {x.name for x in v.input_vars}
+        exp_rv -= arg_names
+        back = dict(zip(fresh, ctx.keys))
+        return [
+            ("scatter_of_the_out_adjoint_with_the_sum_op", op is SUM and src is ctx.out_adj),
+            ("keys_relabelled_to_fresh_names_values_kept", fresh_ok),
+            ("sums_exactly_the_inputs_the_argument_lacks", {x.name for x in rv} == exp_rv),
+            ("fresh_names_renamed_back_and_paired_with_the_argument", result == ((ctx.arg, ("renamed-back", sc, tuple(sorted(back.items())))),)),
+        ]
